@@ -104,6 +104,15 @@ end XV.Driver
 namespace XV.Driver
 open XV XV.Model XV.Model.Unmarshal
 
+/-- a float anywhere (the writer emits Python's repr text, which the driver cannot compute) -/
+partial def hasFloatDeep : V → Bool
+  | .float _ | .complex _ _ | .floatText _ | .complexText _ _ => true
+  | .set _ | .fset _ => true      -- element order is the host's iteration order: no byte-exact tie
+  | .tuple xs | .list xs => xs.any hasFloatDeep
+  | .dict kvs => kvs.any fun (k, v) => hasFloatDeep k || hasFloatDeep v
+  | .code fs => fs.any fun (_, v) => hasFloatDeep v
+  | _ => false
+
 partial def hasFloat : V → Bool
   | .float _ | .complex _ _ | .floatText _ | .complexText _ _ => true
   | .set _ | .fset _ => true      -- marshal.dumps orders set elements its own way: no byte-exact tie
@@ -118,6 +127,12 @@ def marshDispatch (op : String) (args : List String) : Option String :=
       let data ← parseHex h
       pure (match Spec.Marshal.loads [3, 12] data with
         | .ok (v, _) => if hasFloat v then "(skip-float)" else showHex (Model.Marsh.dump v)
+        | .error _ => "(err spec-rejects)")
+  | "x.marshdumpcode", [maj, min, h] => do
+      -- a code object given as the producing Python's own marshal bytes: read by the Spec, written by the Model
+      let a ← parseNat maj; let b ← parseNat min; let data ← parseHex h
+      pure (match Spec.Marshal.loads [a, b] data with
+        | .ok (v, _) => if hasFloatDeep v then "(skip-float)" else showHex (Model.Marsh.dump v)
         | .error _ => "(err spec-rejects)")
   | _, _ => none
 end XV.Driver
